@@ -98,9 +98,20 @@ def bits_of(text):
 
 def rows_of_accessor(acc, k):
     """Rows of a library accessor; raises ValueError naming the entry that is not -1 / the shift successor."""
-    table = o.succ_table(k)
     if tuple(acc.shape) != (4 ** k, 4):
         raise ValueError("accessor shape %r, expected %r" % (tuple(acc.shape), (4 ** k, 4)))
+    if k >= 6:
+        import numpy
+        n = 4 ** k
+        values = numpy.asarray(acc).astype(object if acc.dtype == object else numpy.int64)
+        succ = (numpy.arange(n).reshape(-1, 1) * 4 + numpy.arange(4)) % n
+        wrong = (values != succ) & (values != -1)
+        if wrong.any():
+            v, j = [int(x[0]) for x in numpy.nonzero(wrong)]
+            raise ValueError("entry [%d,%d] = %d is neither -1 nor the shift successor %d"
+                             % (v, j, int(values[v, j]), int(succ[v, j])))
+        return [int(x) for x in ((values == succ) * (1 << numpy.arange(4))).sum(axis=1)]
+    table = o.succ_table(k)
     rows = []
     for v in range(4 ** k):
         r = 0
@@ -481,3 +492,27 @@ def relax_until_satisfiable(cfg):
             break
         cfg[key] = None
     return cfg
+
+
+# ----------------------------------------------------------------------------------------------- large k, tiny graphs
+
+@st.composite
+def tiny_masks(draw, k):
+    """A handful of vertices of a long observed length (k up to 10): the k-windows of a few short circular strings
+    that share low-complexity material, so that small closed sub-graphs with branching exist.  Returned as a sorted
+    list of vertex indices (the mask itself has 4^k entries)."""
+    rng = random.Random(draw(st.integers(0, 2 ** 32 - 1)))
+    unit = draw(st.sampled_from(["A", "C", "T", "AC", "GT", "ACG", "AAC"]))
+    base = (unit * (k // len(unit) + 2))[:k]
+    circles = [unit]  # the periodic k-mer cycle
+    for _ in range(draw(st.integers(1, 3))):
+        insert = "".join(rng.choice("ACGT") for _ in range(rng.randrange(1, 5)))
+        circles.append(base + insert)
+    vertices = set()
+    for circle in circles:
+        doubled = circle * (k // len(circle) + 2)
+        for i in range(len(circle)):
+            vertices.add(o.index(doubled[i: i + k]))
+    for _ in range(draw(st.integers(0, 3))):  # a few stray vertices that must be trimmed away
+        vertices.add(rng.randrange(4 ** k))
+    return sorted(vertices)
